@@ -16,6 +16,8 @@ import Postcard.Model.Fixint
 import Postcard.Model.DeFlavor
 import Postcard.Model.SexpCT
 import Postcard.Spec.Conforms
+import Postcard.Model.SexpJson
+import Postcard.Model.Dyn
 import Postcard.Spec.Cobs
 import Postcard.Spec.Fnv
 /-
@@ -119,6 +121,25 @@ def accAnswer (n : Nat) (t : Ty) (chunks : List (List Byte)) : String :=
       | .panic => (a', "panic" :: acc)
   let (_, out) := chunks.foldl (fun (st : Acc × List String) c => go (2 * c.length + 2) st.1 c st.2) (Acc.new n, [])
   "acc" ++ String.join (out.reverse.map (" ; " ++ ·))
+
+def dynErrName : DynErr → String
+  | .schemaMismatch => "schema-mismatch"
+  | .shouldSupportButDont => "should-support-but-dont"
+  | .unsupported => "unsupported"
+  | .unexpectedEnd => "unexpected-end"
+  | .panic => "panic"
+
+def dynSerStr (s : Schema) (j : Json) : String :=
+  match toStdvecDyn hwFloatOps s j with
+  | .ok b => "ok " ++ hexOfBytes b
+  | .error .panic => "panic"
+  | .error e => "err " ++ dynErrName e
+
+def dynDeStr (s : Schema) (bs : List Byte) : String :=
+  match fromSliceDyn hwFloatOps s bs with
+  | .ok j => "ok " ++ jsonToStr j
+  | .error .panic => "panic"
+  | .error e => "err " ++ dynErrName e
 
 def handle (line : String) : String :=
   match Sexp.parseLine line with
@@ -343,6 +364,18 @@ def handle (line : String) : String :=
         let ok3 := enc c.erase == bs
         s!"ok conforms={if ok1 then 1 else 0} reader={if ok2 then 1 else 0} bytes={if ok3 then 1 else 0}"
       | _, _, _ => "bad-op"
+    | "dynagree", (sx :: jx :: .atom h :: _class) =>
+      match schemaOfSexp sx, jsonOfSexp jx, bytesOfHex h with
+      | some sc, some j, some bs => s!"ser={dynSerStr sc j} de={dynDeStr sc bs}"
+      | _, _, _ => "bad-op"
+    | "dynser", [sx, jx] =>
+      match schemaOfSexp sx, jsonOfSexp jx with
+      | some sc, some j => dynSerStr sc j
+      | _, _ => "bad-op"
+    | "dynde", [sx, .atom h] =>
+      match schemaOfSexp sx, bytesOfHex h with
+      | some sc, some bs => dynDeStr sc bs
+      | _, _ => "bad-op"
     | "hasty", [t, v] =>
       match tyOfSexp t, valOfSexp v with
       | some t, some v => if hasTy v t then "ok 1" else "ok 0"
